@@ -816,6 +816,179 @@ pub fn scalar_fields<T: BFlavor>(prop: &'static str) -> (Acc, Value) {
     (acc, rep)
 }
 
+/// Size ladders through the builder: EVERY length 0..=N of every field (several fillers, a
+/// distinguished character first / last), and EVERY number 0..=M of qualifiers (three insertion
+/// orders, alternating key case) followed by the removal of each single one — all through the full
+/// per-state oracle. Cases are product cases (replayable as such).
+pub fn ladders<T: BFlavor>(prop: &'static str, mon: u32, tier: Tier) -> (Acc, Value) {
+    let (nlen, ncount) = match tier {
+        Tier::Quick => (300usize, 64usize),
+        Tier::Thorough => (1200usize, 200usize),
+    };
+    let types = T::type_universe();
+    let ty = types[0].clone();
+    let ty2 = if T::TYPED { "pypi".to_owned() } else { types[1].clone() };
+    let units: [&str; 8] = ["a", "A", "é", "-", "a-", "/", "%", " "];
+    let edges: [&str; 5] = ["", "É", "/", ".", "%41"];
+    // (field, unit, n, edge, edge-first?)
+    let mut jobs: Vec<(usize, &str, usize, &str, bool)> = Vec::new();
+    for field in 0..5usize {
+        for u in units.iter() {
+            for n in 0..=nlen {
+                if n > 300 && n % 11 != 0 {
+                    continue;
+                }
+                for e in edges.iter() {
+                    if e.is_empty() {
+                        jobs.push((field, u, n, e, false));
+                    } else if n % 2 == 1 || n < 40 {
+                        jobs.push((field, u, n, e, false));
+                        jobs.push((field, u, n, e, true));
+                    }
+                }
+            }
+        }
+    }
+    let run_case = |refb: &RefBuilder, acc: &mut Acc| {
+        let trace = || json!({"engine": format!("{}-product", T::MODEL), "ty": refb.ty, "ns": refb.ns, "name": refb.name, "version": refb.version, "subpath": refb.subpath, "quals": refb.quals.iter().map(|(k, v)| json!([k, v])).collect::<Vec<_>>()});
+        let r = guarded(|| {
+            let mut b = GenericPurlBuilder::new(T::make(&refb.ty), refb.name.as_str()).with_namespace(refb.ns.as_str()).with_version(refb.version.as_str()).with_subpath(refb.subpath.as_str());
+            for (k, v) in &refb.quals {
+                b = b.with_qualifier(k.as_str(), v.as_str()).expect("valid key");
+            }
+            check_build(prop, mon, &b, refb, &trace, acc);
+        });
+        if let Err(m) = r {
+            acc.violate(Violation { prop: "C06", kind: "panic".into(), case: trace(), detail: m });
+        }
+        acc.evals += 1;
+        acc.nontrivial += 1;
+    };
+    let mut acc = par_items(jobs.len(), threads(), |i, acc| {
+        let (field, u, n, e, first) = jobs[i];
+        let body = u.repeat(n);
+        let text = if first { format!("{e}{body}") } else { format!("{body}{e}") };
+        for t in [&ty, &ty2] {
+            let mut refb = RefBuilder { ty: (*t).clone(), ns: "g".into(), name: "n".into(), ..Default::default() };
+            match field {
+                0 => refb.ns = text.clone(),
+                1 => refb.name = text.clone(),
+                2 => refb.version = text.clone(),
+                3 => {
+                    refb.quals.insert("k".into(), text.clone());
+                },
+                _ => refb.subpath = text.clone(),
+            }
+            run_case(&refb, acc);
+        }
+    });
+    let length_cases = acc.evals;
+    // qualifier counts: the reference map is insertion-order independent, the real builder is driven
+    // in three orders with alternating key case; then each single key is removed again
+    let counts = par_items(ncount + 1, threads(), |n, acc| {
+        let key = |i: usize| format!("q{i:03}");
+        let asc: Vec<usize> = (0..n).collect();
+        let desc: Vec<usize> = (0..n).rev().collect();
+        let zig: Vec<usize> = (0..n).map(|i| if i % 2 == 0 { i / 2 } else { n - 1 - i / 2 }).collect();
+        for (oi, order) in [asc, desc, zig].iter().enumerate() {
+            if n < 2 && oi > 0 {
+                continue;
+            }
+            let mut refb = RefBuilder { ty: ty.clone(), ns: "g".into(), name: "n".into(), ..Default::default() };
+            let r = guarded(|| {
+                let mut b = GenericPurlBuilder::new(T::make(&ty), "n").with_namespace("g");
+                for (j, i) in order.iter().enumerate() {
+                    let k = if j % 2 == 0 { key(*i) } else { key(*i).to_ascii_uppercase() };
+                    // every fifth value is empty (dropped by build()), one is a checksum
+                    let v = if i % 5 == 4 { String::new() } else { format!("v{i}") };
+                    b = b.with_qualifier(k.as_str(), v.as_str()).expect("valid key");
+                    refb.quals.insert(key(*i), v);
+                }
+                if n % 3 == 1 {
+                    b = b.with_qualifier("CHECKSUM", "B:FF,a:0A").expect("valid key");
+                    refb.quals.insert("checksum".into(), "B:FF,a:0A".into());
+                }
+                let trace = || json!({"engine": format!("{}-ladder", T::MODEL), "qualifiers": n, "insert_order": oi, "then": "build"});
+                check_build(prop, mon, &b, &refb, &trace, acc);
+                acc.evals += 1;
+                // remove each single key (other letter case) from a clone
+                for i in 0..n {
+                    let k = if i % 2 == 1 { key(i) } else { key(i).to_ascii_uppercase() };
+                    let b2 = b.clone().without_qualifier(k.as_str());
+                    let mut r2 = refb.clone();
+                    r2.quals.remove(&key(i));
+                    let trace = || json!({"engine": format!("{}-ladder", T::MODEL), "qualifiers": n, "insert_order": oi, "then": format!("without_qualifier({k:?})")});
+                    let rf = real_fields(&b2);
+                    if rf != r2 && prop == "C09" {
+                        acc.violate(Violation { prop: "C09", kind: "builder-fields".into(), case: trace(), detail: format!("builder fields {:?}, reference {:?}", rf, r2) });
+                    }
+                    check_build(prop, mon, &b2, &r2, &trace, acc);
+                    acc.evals += 1;
+                }
+            });
+            if let Err(m) = r {
+                acc.violate(Violation { prop: "C06", kind: "panic".into(), case: json!({"engine": format!("{}-ladder", T::MODEL), "qualifiers": n, "insert_order": oi, "then": "panic"}), detail: m });
+            }
+        }
+        acc.nontrivial = acc.evals;
+    });
+    let count_cases = counts.evals;
+    acc.merge(counts);
+    let rep = json!({"engine": "C-size-ladder", "model": T::MODEL, "every_field_length_up_to": nlen.min(300), "every_qualifier_count_up_to": ncount, "length_cases": length_cases, "count_cases": count_cases});
+    (acc, rep)
+}
+
+/// replay of a qualifier-count ladder case: re-run the ladder for that count, keep the recorded step
+pub fn replay_ladder<T: BFlavor>(prop: &'static str, mon: u32, case: &Value) -> Option<Vec<Violation>> {
+    let n = case["qualifiers"].as_u64()? as usize;
+    let key = |i: usize| format!("q{i:03}");
+    let oi = case["insert_order"].as_u64()? as usize;
+    let ty = T::type_universe()[0].clone();
+    let order: Vec<usize> = match oi {
+        0 => (0..n).collect(),
+        1 => (0..n).rev().collect(),
+        _ => (0..n).map(|i| if i % 2 == 0 { i / 2 } else { n - 1 - i / 2 }).collect(),
+    };
+    let mut acc = Acc::new();
+    let mut refb = RefBuilder { ty: ty.clone(), ns: "g".into(), name: "n".into(), ..Default::default() };
+    let r = guarded(|| {
+        let mut b = GenericPurlBuilder::new(T::make(&ty), "n").with_namespace("g");
+        for (j, i) in order.iter().enumerate() {
+            let k = if j % 2 == 0 { key(*i) } else { key(*i).to_ascii_uppercase() };
+            let v = if i % 5 == 4 { String::new() } else { format!("v{i}") };
+            b = b.with_qualifier(k.as_str(), v.as_str()).expect("valid key");
+            refb.quals.insert(key(*i), v);
+        }
+        if n % 3 == 1 {
+            b = b.with_qualifier("CHECKSUM", "B:FF,a:0A").expect("valid key");
+            refb.quals.insert("checksum".into(), "B:FF,a:0A".into());
+        }
+        let then = case["then"].as_str().unwrap_or("build").to_owned();
+        let trace = || case.clone();
+        if then == "build" || then == "panic" {
+            check_build(prop, mon, &b, &refb, &trace, &mut acc);
+        }
+        for i in 0..n {
+            let k = if i % 2 == 1 { key(i) } else { key(i).to_ascii_uppercase() };
+            if then != format!("without_qualifier({k:?})") && then != "panic" {
+                continue;
+            }
+            let b2 = b.clone().without_qualifier(k.as_str());
+            let mut r2 = refb.clone();
+            r2.quals.remove(&key(i));
+            let rf = real_fields(&b2);
+            if rf != r2 && prop == "C09" {
+                acc.violate(Violation { prop: "C09", kind: "builder-fields".into(), case: trace(), detail: format!("builder fields {:?}, reference {:?}", rf, r2) });
+            }
+            check_build(prop, mon, &b2, &r2, &trace, &mut acc);
+        }
+    });
+    if let Err(m) = r {
+        acc.violate(Violation { prop: "C06", kind: "panic".into(), case: case.clone(), detail: m });
+    }
+    Some(acc.violations)
+}
+
 /// replay of a product case
 pub fn replay_product<T: BFlavor>(prop: &'static str, mon: u32, case: &Value) -> Option<Vec<Violation>> {
     let mut acc = Acc::new();
